@@ -353,7 +353,7 @@ def _tnag_geometries(quick):
     return g
 
 
-@driver("C13", "tnag-exact-cluster-loop-routes", chunks=6, timeout=300,
+@driver("C13", "tnag-exact-cluster-loop-routes", chunks=4, timeout=300,
         bound="states: MPS open L<=8 / periodic L<=7 (bond 1..3, site dims 2..3 mixed), PEPS up to 3x3 (bond<=3, open and "
               "periodic directions, 1xN), PEPS3D up to 2x2x2 (incl. unit dimensions), random connected graph states and trees "
               "with <=8 sites (int / str / tuple site labels, per-bond dims 1..3), graph states with one hyper index; "
@@ -660,7 +660,7 @@ def _compressed_geometries(quick):
     return g
 
 
-@driver("C13", "generic-compressed-routes", chunks=4, timeout=300,
+@driver("C13", "generic-compressed-routes", chunks=2, timeout=300,
         bound="TensorNetworkGenVector.partial_trace / local_expectation / compute_local_expectation (compressed contraction "
               "of the overlap) with max_bond=4096 (above every exact bond of the domain) and cutoff=0 on PEPS up to 3x3, "
               "graph states / trees <= 8 sites, MPS viewed as generic vectors (L<=8, open and periodic): flatten in "
@@ -771,7 +771,7 @@ def _spin_ops(d):
     return {"X": sx, "Y": sy, "Z": sz}
 
 
-@driver("C13", "mps-canonical-and-environment-routes", chunks=6, timeout=300,
+@driver("C13", "mps-canonical-and-environment-routes", chunks=4, timeout=300,
         bound="MatrixProductState with L in 1..8 (bond 1..3 mixed, site dims 2..3 mixed), open (all routes) and periodic "
               "(environment route, partial_trace_to_mpo, partial_trace_compress), 4 dtypes, stored exponents; where = int "
               "or tuple of 1..3 sites in any order; info in {None, {}, 'calc', a true record after canonicalize_}; "
@@ -1010,7 +1010,8 @@ def _mps_one_state(cx, rng, mps, L, cyclic, dtype, how, rep):
     blocks.append(((0,), (L - 1,)))
     if L >= 2:
         blocks.append((tuple(range(0, L // 2)), tuple(range(L // 2, L))))
-    bsz = [mps.bond_size(i, (i + 1) % L) for i in range(L if cyclic else L - 1)]
+    phys = {mps.site_ind(i) for i in range(L)}
+    bsz = [d for t in mps.tensors for ix, d in zip(t.inds, t.shape) if ix not in phys]
     methods = ["svd"] + ([("isvd", None)] if len(set(bsz)) <= 1 else [])
     seen = set()
     variants = [(False, mps, dn)]
@@ -1079,7 +1080,7 @@ def _lex_pairs(rng, sites, count):
     return out
 
 
-@driver("C13", "lattice-boundary-routes-2d", chunks=6, timeout=300,
+@driver("C13", "lattice-boundary-routes-2d", chunks=3, timeout=300,
         bound="PEPS.compute_local_expectation / compute_norm / normalize and compute_plaquette_environments on PEPS 1xN, Nx1, "
               "2x2, 2x3, 3x2, 3x3 (bond 1..3, site dim 1..3, open; 3x3 / 3x2 with periodic directions), 4 dtypes, stored "
               "exponents; max_bond=4096 (>= exact boundary bond) and cutoff=0; mode in {mps, full-bond, projector}, canonize "
@@ -1260,7 +1261,7 @@ def lattice_2d(cx):
     del qtn
 
 
-@driver("C13", "lattice-boundary-routes-3d", chunks=4, timeout=300,
+@driver("C13", "lattice-boundary-routes-3d", chunks=2, timeout=300,
         bound="PEPS3D.partial_trace / partial_trace_cluster / compute_local_expectation on 2x2x2, 1x2x2, 2x1x2, 2x2x1, 1x1x3, "
               "2x2x3 (thorough) lattices, bond 2 (3 on the smallest), site dim 2..3, 4 dtypes, stored exponents; max_bond=4096 "
               "and cutoff=0; canonize on/off, flatten on/off, symmetrized auto/True/False, normalized or not, cell contraction "
@@ -1392,7 +1393,7 @@ def make_graph_operator(rng, n, dtype, extra_edges=0, labels="int", maxbond=3, d
     return tn
 
 
-@driver("C13", "operator-trace-and-partial-transpose", chunks=2, timeout=200,
+@driver("C13", "operator-trace-and-partial-transpose", chunks=1, timeout=200,
         bound="TensorNetworkGenOperator.trace and partial_transpose on random operator networks: generic graphs <= 6 sites "
               "(int / str / tuple site labels), MPO L<=6 open and periodic, PEPO 2x2 / 2x3; site dims 2..3 mixed, 4 dtypes, "
               "stored exponents; sysa = single site (bare), tuples, all sites, generators; in-place and copy")
